@@ -2,6 +2,7 @@ import RbV.Ref.EditDist
 import RbV.Lemmas.UkkonenEq
 import RbV.Lemmas.EdTextbook
 import RbV.Lemmas.MyersStep
+import RbV.Lemmas.MyersBlock
 /-!
 # C09 — approximate matchers and distance functions equal the edit-distance definition
 
@@ -204,6 +205,23 @@ theorem myers_simple_eq (w : Nat) (eqv : Nat → Nat → Bool) (p t : List Nat) 
     (hm1 : 1 ≤ p.length) (hw : p.length ≤ w) :
     RbV.Model.MyersSimple.findAllEnd w eqv p t k = hits (unitW eqv) p t k :=
   RbV.Model.MyersSimple.findAllEnd_eq_hits w eqv p t k hm1 hw
+
+/-- **[C] block step** (`long.rs: advance_block`): if a block's `pv`/`mv` encode the vertical differences of the local
+column `D` (rows `0..n` of the block, `n = bnd+1 ≤ w`), `dist = D n`, and `hin ∈ {−1,0,1}` is the horizontal difference
+at the block's upper edge (`b0 − D 0`), then after `advance_block` (forcing `eq` bit 0 when `hin < 0`, the addition
+trick, shifting `hin` into `ph`/`mh`) the block encodes the next column on its rows, `dist` is the new last entry and
+the returned `hout` is the horizontal difference at the lower edge — i.e. exactly the carry the next block needs. -/
+theorem myers_block_step {w : Nat} (bnd : Nat) (hn : bnd + 1 ≤ w) (D : Nat → Int) (eq : BitVec w)
+    (s : RbV.Model.MyersSimple.St w) (b0 hin : Int) (hh : -1 ≤ hin ∧ hin ≤ 1) (hb : b0 - D 0 = hin)
+    (enc : RbV.Model.MyersLong.EncB (bnd + 1) D s.pv s.mv) (hd : (s.dist : Int) = D (bnd + 1))
+    (hnn : 0 ≤ RbV.Model.MyersLong.nextCB D eq.getLsbD b0 (bnd + 1)) :
+    RbV.Model.MyersLong.EncB (bnd + 1) (RbV.Model.MyersLong.nextCB D eq.getLsbD b0)
+      (RbV.Model.MyersLong.advanceBlock bnd eq hin s).1.pv (RbV.Model.MyersLong.advanceBlock bnd eq hin s).1.mv ∧
+    ((RbV.Model.MyersLong.advanceBlock bnd eq hin s).1.dist : Int) =
+      RbV.Model.MyersLong.nextCB D eq.getLsbD b0 (bnd + 1) ∧
+    (RbV.Model.MyersLong.advanceBlock bnd eq hin s).2 =
+      RbV.Model.MyersLong.nextCB D eq.getLsbD b0 (bnd + 1) - D (bnd + 1) :=
+  RbV.Model.MyersLong.advanceBlock_enc bnd hn D eq s b0 hin hh hb enc hd hnn
 
 -- non-vacuity: concrete instances
 example : RbV.Model.MyersSimple.findAllEnd 8 eqSym [1, 2, 1] [1, 2, 1, 3, 1, 1] 1 = [(1, 1), (2, 0), (3, 1), (4, 1), (5, 1)] := by decide
